@@ -24,7 +24,7 @@ def run(d):
         shutil.rmtree(tmp,ignore_errors=True)
 seeds=[os.path.dirname(m) for m in sorted(glob.glob('seeded/*/meta.json'))]
 if only: seeds=[s for s in seeds if os.path.basename(s) in only]
-with concurrent.futures.ThreadPoolExecutor(max_workers=5) as ex:
+with concurrent.futures.ThreadPoolExecutor(max_workers=int(os.environ.get("MATRIX_JOBS","5"))) as ex:
     for d,applied,det in ex.map(run,seeds):
         meta=json.load(open(d+'/meta.json'))
         if applied is None:
